@@ -59,10 +59,14 @@ fn canon(line: &str, cids: &HashMap<usize, String>) -> String {
     format!("j{}", hex::encode(v.to_string()))
 }
 
-async fn settle(conns: &mut HashMap<usize, Conn>, cids: &HashMap<usize, String>, out: &mut Vec<String>) {
+/// `expect`: the session and transaction id of the request just sent, when the protocol owes it an answer: the quiet period
+/// only counts once a message with that id (or the end of that session) has been seen -- under load the answer may take
+/// longer than any quiet period (bounded by 20 s: after that the missing answer is what is reported)
+async fn settle(conns: &mut HashMap<usize, Conn>, cids: &HashMap<usize, String>, out: &mut Vec<String>, expect: Option<(usize, u64)>) {
     // read until every session has been silent for QUIET; give up after MAX
     let quiet = Duration::from_millis(12);
     let start = tokio::time::Instant::now();
+    let mut answered = expect.is_none();
     loop {
         let mut any = false;
         let mut keys: Vec<usize> = conns.keys().copied().collect();
@@ -76,11 +80,19 @@ async fn settle(conns: &mut HashMap<usize, Conn>, cids: &HashMap<usize, String>,
                 match tokio::time::timeout(Duration::from_millis(1), c.rd.next_line()).await {
                     Ok(Ok(Some(line))) => {
                         any = true;
+                        if let Some((es, et)) = expect {
+                            if es == s {
+                                if let Ok(v) = serde_json::from_str::<Value>(&line) {
+                                    if v.as_object().and_then(|o| o.values().next()).map(|b| b["transactionId"] == json!(et)).unwrap_or(false) { answered = true; }
+                                }
+                            }
+                        }
                         out.push(format!("{s}:{}", canon(&line, cids)));
                     }
                     Ok(Ok(None)) | Ok(Err(_)) => {
                         any = true;
                         c.closed = true;
+                        if expect.map(|(es, _)| es == s).unwrap_or(false) { answered = true; }
                         out.push(format!("{s}:closed"));
                         break;
                     }
@@ -101,11 +113,11 @@ async fn settle(conns: &mut HashMap<usize, Conn>, cids: &HashMap<usize, String>,
                     }
                 }
             }
-            if !again || start.elapsed() > Duration::from_millis(1500) {
+            if answered && (!again || start.elapsed() > Duration::from_millis(1500)) {
                 break;
             }
         }
-        if start.elapsed() > Duration::from_millis(3000) {
+        if (answered && start.elapsed() > Duration::from_millis(3000)) || start.elapsed() > Duration::from_secs(20) {
             break;
         }
     }
@@ -301,7 +313,21 @@ async fn run_case(sock: PathBuf, ops: Vec<String>) -> Vec<String> {
                     }
                     other => panic!("unknown op {other}"),
                 }
-                settle(&mut conns, &cids, &mut out).await;
+                // which answer the protocol owes: every request with a transaction id, except a waiting acquireLock
+                let expect: Option<(usize, u64)> = if t[0] == "send" {
+                    hex::decode(&t[2][1..]).ok().and_then(|b| String::from_utf8(b).ok()).and_then(|txt| serde_json::from_str::<Value>(&txt).ok()).and_then(|v| {
+                        let o = v.as_object()?;
+                        if o.len() != 1 { return None; }
+                        let (kind, body) = o.iter().next()?;
+                        if kind == "acquireLock" || kind == "protocolSwitchRequest" || kind == "authorizationRequest" { return None; }
+                        let tid = body.get("transactionId")?.as_u64()?;
+                        if conns.get(&sn).map(|c| c.closed).unwrap_or(true) { return None; }
+                        Some((sn, tid))
+                    })
+                } else { None };
+                let t0 = tokio::time::Instant::now();
+                settle(&mut conns, &cids, &mut out, expect).await;
+                if std::env::var("WBH_SLOW").is_ok() && t0.elapsed() > Duration::from_secs(5) { eprintln!("SLOW {:?}: {}", t0.elapsed(), if t[0] == "send" { unhex(t[2]) } else { line.clone() }); }
                 lines.push(out.join(" "));
             }
             let _ = conns.values().map(|c| c.cid.len()).sum::<usize>();
